@@ -44,6 +44,7 @@ type Run struct {
 	T      *Tape
 	Res    *Result
 	h      hash.Hash
+	sub    hash.Hash // optional sub-digest (one enumerated case)
 	trace  bool
 	Filter string // property id whose violations are reported ("" = all)
 }
@@ -62,6 +63,10 @@ func (r *Run) Hist(format string, args ...any) {
 	s := fmt.Sprintf(format, args...)
 	r.h.Write([]byte(s))
 	r.h.Write([]byte{'\n'})
+	if r.sub != nil {
+		r.sub.Write([]byte(s))
+		r.sub.Write([]byte{'\n'})
+	}
 	if r.trace {
 		r.Res.Trace = append(r.Res.Trace, s)
 	}
@@ -88,6 +93,25 @@ func (r *Run) Violate(prop, class, key string, step int, format string, args ...
 	v := Violation{Property: prop, Class: class, Key: key, Step: step, Detail: fmt.Sprintf(format, args...)}
 	r.Note("VIOLATION %s %s %s: %s", prop, class, key, v.Detail)
 	r.Res.Violations = append(r.Res.Violations, v)
+}
+
+// SubBegin starts a sub-digest over the records that follow.
+func (r *Run) SubBegin() { r.sub = sha256.New() }
+
+// SubEnd returns the sub-digest and stops it.
+func (r *Run) SubEnd() string {
+	d := hex.EncodeToString(r.sub.Sum(nil))
+	r.sub = nil
+	return d
+}
+
+// FaultTotal is the number of faults fired so far.
+func (r *Run) FaultTotal() int {
+	n := 0
+	for _, v := range r.Res.Faults {
+		n += v
+	}
+	return n
 }
 
 // Finish seals the digest.
